@@ -93,6 +93,10 @@ var c33Slots = []string{
 	"rc",       // a root that is itself a repository (named after the root directory)
 }
 
+// c33ShardLimit is the -shard_limit of every sync: the first template's a.txt is larger, so that
+// repository occupies two shard files (.00000 and .00001); all other repositories occupy one.
+const c33ShardLimit = 300
+
 func c33IsBare(p string) bool { return strings.HasSuffix(p, ".git") }
 
 func c33NewWorld(base string) *c33World {
@@ -112,6 +116,13 @@ func c33NewWorld(base string) *c33World {
 			c33Must(os.WriteFile(filepath.Join(wt, "f.txt"), []byte(fmt.Sprintf("s%dc%d\n", i, k)), 0o644))
 			_, err = tree.Add("f.txt")
 			c33Must(err)
+			if i == 0 && k == 0 {
+				// the first template spans two shards: a.txt alone exceeds the -shard_limit every command
+				// is run with (few distinct trigrams, see above)
+				c33Must(os.WriteFile(filepath.Join(wt, "a.txt"), []byte(strings.Repeat("ab ", c33ShardLimit/3+20)), 0o644))
+				_, err = tree.Add("a.txt")
+				c33Must(err)
+			}
 			sig := &object.Signature{Name: "Verif", Email: "verif@example.com", When: when.Add(time.Duration(k) * time.Hour)}
 			h, err := tree.Commit(fmt.Sprintf("%s commit %d", slot, k), &git.CommitOptions{Author: sig, Committer: sig})
 			c33Must(err)
@@ -425,7 +436,7 @@ func c33Args(dir, idx, cmd string) []string {
 		if strings.Contains(arg, ",") {
 			args = append(args, "sync")
 		}
-		args = append(args, "-index", idx, "-disable_ctags", "-shard_limit", "1000000")
+		args = append(args, "-index", idx, "-disable_ctags", "-shard_limit", strconv.Itoa(c33ShardLimit))
 		if kind == "syncb" {
 			args = append(args, "-branches", "no-such-branch", "-allow_missing_branches")
 		}
@@ -905,7 +916,10 @@ func TestVerifC33Child(t *testing.T) {
 	if jobPath == "" {
 		t.Skip("worker process of TestVerifC33/C34")
 	}
+	// no periodic collection (every Builder allocates fresh 16 MB tables: collecting after each is the
+	// dominant cost), but a ceiling: 16 workers must fit into memory together
 	debug.SetGCPercent(-1)
+	debug.SetMemoryLimit(1536 << 20)
 	b, err := os.ReadFile(jobPath)
 	if err != nil {
 		t.Fatal(err)
@@ -942,8 +956,8 @@ func c33RunChunk(job *c33Job, name string) ([]*c33StateResult, error) {
 	ob, err := os.ReadFile(jobPath + ".out")
 	if err != nil {
 		tail := string(output)
-		if len(tail) > 3000 {
-			tail = tail[len(tail)-3000:]
+		if len(tail) > 3600 {
+			tail = tail[:1200] + "\n[...]\n" + tail[len(tail)-2400:]
 		}
 		return nil, fmt.Errorf("child process produced no result (%v): %s", runErr, tail)
 	}
@@ -1277,11 +1291,20 @@ func c33Check(w *c33World, s *c33State, dir, cmd string, res *c33StateResult) ([
 	}
 	// (2b) what -f reports == what -f did to the directory, so that (2a) is about real actions
 	var dishonest []string
+	// a shard file of a repository that is announced / reported as (re-)indexed may disappear without
+	// a "remove" line of its own: indexing replaces all shard files of that repository, and the new
+	// index may need fewer of them
+	nameOf := map[string]string{}
+	for _, rec := range s.Index {
+		nameOf[rec.File] = rec.Name
+	}
 	for f := range deleted {
-		if !done.Rm[strings.TrimSuffix(f, ".meta")] {
+		base := strings.TrimSuffix(f, ".meta")
+		n, known := nameOf[base]
+		if !done.Rm[base] && !(known && doneIxNames[n]) {
 			dishonest = append(dishonest, "deleted without announcement: "+f)
 		}
-		if !ann.Rm[strings.TrimSuffix(f, ".meta")] {
+		if !ann.Rm[base] && !(known && annIxNames[n]) {
 			dishonest = append(dishonest, "deleted but not announced by the preview: "+f)
 		}
 	}
